@@ -211,6 +211,20 @@ class Engine(ExprMixin, StmtMixin, CallMixin, PrimMixin, NumpyMixin, BOMixin):
             yield st, None
         elif ty.startswith("const:"):
             yield st, ast.literal_eval(ty[6:])
+        elif ty.startswith("clist:"):
+            # a python list with the given literal items
+            yield st, st.alloc(HList(list(ast.literal_eval(ty[6:])), fresh=fresh))
+        elif ty.startswith("lst[") and ty.endswith("]"):
+            # a python list whose items are instantiated from the given types
+            parts = _split_types(ty[4:-1])
+
+            def recl(s, k, acc):
+                if k == len(parts):
+                    yield s, s.alloc(HList(acc, fresh=fresh))
+                    return
+                for s1, v in self.instantiate(s, parts[k], "%s[%d]" % (name, k), fresh):
+                    yield from recl(s1, k + 1, acc + [v])
+            yield from recl(st, 0, [])
         elif ty.startswith("opt[") and ty.endswith("]"):
             s1 = st.fork()
             s1.path.append(name + "=None")
@@ -259,11 +273,15 @@ class Engine(ExprMixin, StmtMixin, CallMixin, PrimMixin, NumpyMixin, BOMixin):
             # struct[a:int,b:real] : structured array with parallel field arrays of one length
             n = z3.Int(name + "!len")
             self.assume(st, n >= 0)
-            fields = {}
+            fields, ftype, fshape = {}, {}, {}
+            from .values import FieldType
             for part in _split_types(ty[7:-1]):
                 fname, fkind = part.split(":")
-                fields[fname.strip()] = self.fresh_arr(st, fkind.strip(), name + "." + fname.strip(), fresh=fresh, n=n)
-            yield st, st.alloc(HStruct(n, fields, fresh=fresh))
+                fname, fkind = fname.strip(), fkind.strip()
+                fields[fname] = self.fresh_arr(st, fkind, name + "." + fname, fresh=fresh, n=n)
+                ftype[fname] = FieldType(z3.Int("%s.%s!type" % (name, fname)), fkind)
+                fshape[fname] = z3.Int("%s.%s!subshape" % (name, fname))
+            yield st, st.alloc(HStruct(n, fields, fresh=fresh, ftype=ftype, fshape=fshape))
         elif ty.startswith("obj:"):
             # obj:Class{field:type,...}
             body = ty[4:]
